@@ -994,6 +994,12 @@ def _f_accumulate():
         subs = [n for n in pool[0].body if isinstance(n, ast.Assign) and 'executor.submit(get_block_sums' in U(n.value)]
         if len(subs) != 1:
             raise TranslationError(f'{cls.__name__}.{meth}: submission of the workers')
+        # the pool size is the thread count and (compare) the partition is a matter of max_block_mem alone
+        want_pool = "max_workers=config['threads']" if cls is RasterCompare else 'max_workers=threads'
+        if want_pool not in U(pool[0].items[0].context_expr):
+            raise TranslationError(f'{cls.__name__}.{meth}: the pool is created by `{U(pool[0].items[0].context_expr)}`')
+        if cls is RasterCompare and "self.block_pairs(max_block_mem=config['max_block_mem'])" not in U(subs[0].value):
+            raise TranslationError(f'{cls.__name__}.{meth}: the blocks submitted are `{U(subs[0].value)[:160]}`')
         nm = 'accumulate_compare' if cls is RasterCompare else 'accumulate_stats'
         out.append((nm, '', 'List AccOp', '[.workerReturnsOwnSums, .submitEvery, .awaitEveryCompleted, .accumulateInCaller]',
                     f'{cls.__name__}.{meth}: who adds the block sums up'))
